@@ -66,3 +66,19 @@ def gen_spec(rng, kinds=("str", "regex"), n_nt=None, depth=3):
         rng.shuffle(alts)
         lines.append(f"{nt} ::= " + " | ".join(alts))
     return "\n".join(lines) + "\n"
+
+
+NULLABLE_TEMPLATES = [
+    '<start> ::= <ws> <ws> "!"\n<ws> ::= " "{0,2}\n',
+    '<start> ::= <f>{2,3} "!"\n<f> ::= <c>{0,2}\n<c> ::= "x"\n',
+    '<start> ::= (<a>?){3} "b"\n<a> ::= "a"\n',
+    '<start> ::= <p> <p> <q>\n<p> ::= "x" | ""\n<q> ::= "y" | <p> "z"\n',
+    '<start> ::= <o> <o> <o>\n<o> ::= "a"? "b"?\n',
+    '<start> ::= <h> ":" <h>\n<h> ::= <e> <e> "k"?\n<e> ::= "" | "e"\n',
+    '<start> ::= <b8>{2} <t>\n<b8> ::= <z>{0,1}\n<z> ::= b"z"\n<t> ::= b"t" | b""\n',
+]
+
+
+def gen_nullable_spec(rng):
+    """grammars in which the same empty-deriving symbol occurs several times in a row"""
+    return rng.choice(NULLABLE_TEMPLATES)
